@@ -57,6 +57,36 @@ def pure(e):
 FLAG = ['failed']          # name of the local boolean flag of _run_core (found by `generate`: renaming it is harmless)
 
 
+class _Subst(ast.NodeTransformer):
+    def __init__(self, m):
+        self.m = m
+
+    def visit_Name(self, node):
+        if isinstance(node.ctx, ast.Load) and node.id in self.m:
+            return ast.copy_location(ast.parse(self.m[node.id], mode='eval').body, node)
+        return node
+
+
+def resolve_aliases(fn):
+    """local names bound ONCE, at the top level of the function, to a pure attribute chain on self (`case = self.case`,
+    `result = self.result`, `caught = self.exception_caught`) are replaced by that chain (harmless rewrite: local aliases)"""
+    counts, alias = {}, {}
+    for node in ast.walk(fn):
+        if isinstance(node, ast.Name) and isinstance(node.ctx, ast.Store):
+            counts[node.id] = counts.get(node.id, 0) + 1
+    for st in fn.body:
+        if isinstance(st, ast.Assign) and len(st.targets) == 1 and isinstance(st.targets[0], ast.Name) and counts.get(st.targets[0].id) == 1:
+            v = st.value
+            chain = v
+            while isinstance(chain, ast.Attribute):
+                chain = chain.value
+            if isinstance(v, ast.Attribute) and isinstance(chain, ast.Name) and chain.id == 'self':
+                alias[st.targets[0].id] = ast.unparse(v)
+    if alias:
+        fn = ast.fix_missing_locations(_Subst(alias).visit(fn))
+    return fn
+
+
 def block(stmts):
     if not stmts:
         return '.done'
@@ -108,7 +138,25 @@ def block(stmts):
 def select_rules(fn):
     rules = []
     env = {}
-    for s in fn.body:
+    body = list(fn.body)
+    k = 0
+    while k < len(body):
+        s = body[k]
+        k += 1
+        # `x = next((e for e in [reversed](self._exceptions) if <cond>), None)` + `if x is not None: return x`
+        if isinstance(s, ast.Assign) and len(s.targets) == 1 and isinstance(s.targets[0], ast.Name) and k < len(body) \
+                and isinstance(s.value, ast.Call) and ast.unparse(s.value.func) == 'next' and len(s.value.args) == 2 \
+                and isinstance(s.value.args[0], ast.GeneratorExp) and ast.unparse(s.value.args[1]) == 'None':
+            g, x, nxt = s.value.args[0], s.targets[0].id, body[k]
+            if len(g.generators) == 1 and len(g.generators[0].ifs) == 1 and isinstance(g.elt, ast.Name) \
+                    and ast.unparse(g.generators[0].target) == g.elt.id and isinstance(nxt, ast.If) and not nxt.orelse \
+                    and ast.unparse(nxt.test) == '%s is not None' % x and len(nxt.body) == 1 and ast.unparse(nxt.body[0]) == 'return %s' % x:
+                loop = ast.parse('for %s in %s:\n    if %s:\n        return %s' % (
+                    g.elt.id, ast.unparse(g.generators[0].iter), ast.unparse(g.generators[0].ifs[0]), g.elt.id)).body[0]
+                body[k - 1:k + 1] = [loop]
+                k -= 1
+                continue
+    for s in body:
         if isinstance(s, ast.Expr) and isinstance(s.value, ast.Constant):
             continue
         if isinstance(s, ast.Assign) and len(s.targets) == 1 and isinstance(s.targets[0], ast.Name) and pure(s.value):
@@ -181,14 +229,14 @@ def handler_for_ok(fn):
 
 def generate(repo):
     tree = ast.parse(open(os.path.join(repo, 'testtools', 'runtest.py')).read())
-    fn = find(tree, 'RunTest', '_run_core')
+    fn = resolve_aliases(find(tree, 'RunTest', '_run_core'))
     flags = [st.targets[0].id for st in fn.body if isinstance(st, ast.Assign) and len(st.targets) == 1 and isinstance(st.targets[0], ast.Name)
              and isinstance(st.value, ast.Constant) and st.value.value is False]
     FLAG[0] = flags[0] if len(flags) == 1 else 'failed'
     core = block(fn.body)
-    rules = select_rules(find(tree, 'RunTest', '_select_exception'))
+    rules = select_rules(resolve_aliases(find(tree, 'RunTest', '_select_exception')))
     hf = handler_for_ok(find(tree, 'RunTest', '_handler_for'))
-    cl = cleanups_shape(find(tree, 'RunTest', '_run_cleanups'))
+    cl = cleanups_shape(resolve_aliases(find(tree, 'RunTest', '_run_cleanups')))
     return '''import TTV.Model.RunSkel
 /-! GENERATED by harness/pyskel.py from testtools/runtest.py on every run - do not edit.
 The control skeleton of `RunTest._run_core`, the rules of `RunTest._select_exception`, and whether `RunTest._handler_for` is
